@@ -61,6 +61,8 @@ type normalizer struct {
 	varDef     map[types.Object]ast.Expr        // local variable defined once by this expression
 	varBad     map[types.Object]bool            // reassigned / address taken / unknown definition
 	varAssign  map[types.Object]*ast.AssignStmt // for `var x T; x = e`: the single assignment
+	varDefNode map[types.Object]ast.Node        // the `x := e` statement that defines a local
+	keptAlive  map[types.Object]bool            // closure variables given a `_ = x` because their calls were inlined
 }
 
 func sigOfTypes(sig *types.Signature) string {
@@ -328,6 +330,9 @@ func (n *normalizer) inlinable(fn *types.Func, fd *ast.FuncDecl) bool {
 	if fd.Body == nil {
 		return false
 	}
+	if fn != nil && n.wrapEntryLike(fn, fd) {
+		return false // a new error-wrapper entry point: kept as a function and recognised by its summary (wrapInfoOf)
+	}
 	ok := true
 	defer func() {
 		if !ok {
@@ -382,6 +387,51 @@ func (n *normalizer) inlinable(fn *types.Func, fd *ast.FuncDecl) bool {
 	}
 	visit(fd.Body, false)
 	return ok
+}
+
+// wrapEntryLike: `func g(err error, …, msg string, …) error` all of whose returns are calls that involve one of the
+// library's error wrappers: a sibling of wrapError/wrapErrorWithRetry rather than a helper extracted from some caller.
+func (n *normalizer) wrapEntryLike(fn *types.Func, fd *ast.FuncDecl) bool {
+	sig := fn.Type().(*types.Signature)
+	if sig.Recv() != nil || sig.Results().Len() != 1 || sig.Results().At(0).Type().String() != "error" || sig.Params().Len() < 2 {
+		return false
+	}
+	if sig.Params().At(0).Type().String() != "error" {
+		return false
+	}
+	hasString := false
+	for i := 0; i < sig.Params().Len(); i++ {
+		if b, ok := sig.Params().At(i).Type().(*types.Basic); ok && b.Kind() == types.String {
+			hasString = true
+		}
+	}
+	if !hasString {
+		return false
+	}
+	// its body applies one of the library's wrappers to its own cause parameter
+	var causeObj types.Object
+	if fd.Type.Params != nil && len(fd.Type.Params.List) > 0 && len(fd.Type.Params.List[0].Names) > 0 {
+		causeObj = n.info.Defs[fd.Type.Params.List[0].Names[0]]
+	}
+	found := false
+	ast.Inspect(fd.Body, func(x ast.Node) bool {
+		k, isK := x.(*ast.CallExpr)
+		if !isK || len(k.Args) == 0 {
+			return true
+		}
+		callee, _ := n.calleeOf(k)
+		if callee == nil || callee.Pkg() != n.pp.Types {
+			return true
+		}
+		switch callee.Name() {
+		case "wrapErrorImpl", "wrapError", "wrapErrorf", "wrapErrorWithRetry":
+			if id, ok := ast.Unparen(k.Args[0]).(*ast.Ident); ok && causeObj != nil && n.info.Uses[id] == causeObj {
+				found = true
+			}
+		}
+		return true
+	})
+	return found
 }
 
 func (n *normalizer) calleeOf(call *ast.CallExpr) (*types.Func, *ast.Ident) {
@@ -1077,6 +1127,7 @@ func (s *site) calleeName() string {
 // indexVars records, for local variables, the single expression that defines them (or that they are not single-assignment).
 func (n *normalizer) indexVars() {
 	n.varDef = map[types.Object]ast.Expr{}
+	n.varDefNode = map[types.Object]ast.Node{}
 	n.varBad = map[types.Object]bool{}
 	n.varAssign = map[types.Object]*ast.AssignStmt{}
 	declOnly := map[types.Object]bool{}
@@ -1112,6 +1163,7 @@ func (n *normalizer) indexVars() {
 						}
 						if obj := n.info.Defs[id]; obj != nil {
 							n.varDef[obj] = y.Rhs[i]
+							n.varDefNode[obj] = y
 						} else {
 							bad(l)
 						}
@@ -1193,7 +1245,7 @@ func (n *normalizer) resolveLit(id *ast.Ident) (*ast.FuncLit, map[types.Object]b
 		}
 		switch x := ast.Unparen(e).(type) {
 		case *ast.FuncLit:
-			if !viaInl {
+			if !viaInl && !forwardingLit(x) {
 				return nil, nil
 			}
 			return x, chain
@@ -1708,6 +1760,30 @@ func (n *normalizer) methodValueRound() bool {
 		})
 	}
 	return changed
+}
+
+// forwardingLit: a local helper closure whose whole body is one call (`fail := func(err error, msg string) error { return
+// wrap(err, retry, msg) }`): calls of it are inlined like calls of a new helper function.
+func forwardingLit(lit *ast.FuncLit) bool {
+	if lit.Body == nil || len(lit.Body.List) != 1 {
+		return false
+	}
+	switch st := lit.Body.List[0].(type) {
+	case *ast.ReturnStmt:
+		if len(st.Results) == 0 {
+			return false
+		}
+		for _, r := range st.Results {
+			if _, isCall := ast.Unparen(r).(*ast.CallExpr); isCall {
+				return true
+			}
+		}
+		return false
+	case *ast.ExprStmt:
+		_, isCall := ast.Unparen(st.X).(*ast.CallExpr)
+		return isCall
+	}
+	return false
 }
 
 // cleanupRound: a function literal held only by inlining temporaries whose calls have all been inlined is replaced by nil,
@@ -2637,6 +2713,7 @@ func (n *normalizer) inlineSite(filename string, s *site) (done bool) {
 			gen += "}\n"
 		}
 		n.addEdit(filename, stStart, stEnd, "\n"+n.pinLines(gen, filename, line)+n.lineDirective(filename, n.fset.Position(thIf.End()).Line))
+		n.keepAlive(s)
 		n.notes = append(n.notes, note)
 		return true
 	}
@@ -2677,8 +2754,35 @@ func (n *normalizer) inlineSite(filename string, s *site) (done bool) {
 	default:
 		n.addEdit(filename, stStart, stEnd, "\n"+n.pinLines(pre.String()+post, filename, line)+n.lineDirective(filename, endLine))
 	}
+	n.keepAlive(s)
 	n.notes = append(n.notes, note)
 	return true
+}
+
+// keepAlive: once the calls of a user-declared closure variable are inlined the variable may be left unused, which does
+// not compile: a `_ = f` is put right after its definition (once).
+func (n *normalizer) keepAlive(s *site) {
+	if s.lit == nil {
+		return
+	}
+	for obj := range s.chain {
+		if strings.HasPrefix(obj.Name(), "_inl") || n.keptAlive[obj] {
+			continue
+		}
+		d, ok := n.varDefNode[obj].(*ast.AssignStmt)
+		if !ok {
+			continue
+		}
+		fn := n.fset.File(d.Pos()).Name()
+		if n.overlaps(fn, n.off(d.End()), n.off(d.End())) {
+			continue
+		}
+		if n.keptAlive == nil {
+			n.keptAlive = map[types.Object]bool{}
+		}
+		n.keptAlive[obj] = true
+		n.addEdit(fn, n.off(d.End()), n.off(d.End()), "\n_ = "+obj.Name()+"\n"+n.lineDirective(fn, n.fset.Position(d.End()).Line))
+	}
 }
 
 // deleteRound removes new functions that are no longer referenced.
